@@ -342,6 +342,10 @@ def _as_fraction(x):
         x = _float(x)
         if x != x or x in (_float('inf'), -_float('inf')):
             return None
+        # an exponent such as 0.3333333333333333 denotes the small rational it is the nearest double of
+        fr = fractions.Fraction(x).limit_denominator(10000)
+        if abs(_float(fr) - x) <= 1e-12 * max(1.0, abs(x)):
+            return fr
         return fractions.Fraction(repr(x))
     if isinstance(x, fractions.Fraction):
         return x
